@@ -65,7 +65,9 @@ var (
 		return out
 	}()
 	// every account the harness can attribute a transaction to; the index is what txSpec.Sender and the oracle use
-	allAccounts = append([]*txkit.Account{txkit.A, txkit.B, txkit.C}, bndSenders...)
+	allAccounts = append(append([]*txkit.Account{txkit.A, txkit.B, txkit.C}, bndSenders...),
+		&txkit.Account{Name: "M", Addr: types.MultiSignNonceAddr}) // the account whose nonce special transactions consume
+	idxMultiSign = len(allAccounts) - 1
 )
 
 const bndFirst = 3 // allAccounts[bndFirst:] are the boundary senders
